@@ -18,24 +18,41 @@ func gen(tier string, seed int64) []mon.Case {
 	cs := make([]mon.Case, 0, n)
 	for i := 0; i < n; i++ {
 		var d Desc
-		switch x := r.Intn(20); {
-		case x < 12:
-			d = GenDialogue(r, false)
-		case x < 15:
-			d = GenDialogue(r, true)
+		switch x := r.Intn(200); {
+		case x < 6:
+			d = GenWedge(r)
+		case x < 26:
+			d = GenMulti(r)
 		default:
-			d = GenEscalation(r)
+			x = (x - 26) * 20 / 174
+			d = genSingle(r, x)
 		}
 		cs = append(cs, mon.MkCase(fmt.Sprintf("c12/%05d", i), d))
 	}
 	return cs
 }
 
+func genSingle(r *rand.Rand, x int) Desc {
+	switch {
+	case x < 12:
+		return GenDialogue(r, false)
+	case x < 15:
+		return GenDialogue(r, true)
+	default:
+		return GenEscalation(r)
+	}
+}
+
 func run(c mon.Case) mon.Result {
 	var d Desc
 	c.Decode(&d)
-	if d.Kind == "escalation" {
+	switch {
+	case d.Wedge != nil:
+		return RunWedge(d)
+	case d.Kind == "escalation":
 		return RunEscalation(d)
+	case d.Kind == "multi":
+		return RunMulti(d)
 	}
 	return RunDialogue(d)
 }
@@ -48,7 +65,10 @@ func init() {
 			"per-read delays and held-back tails): dialogues of 1-6 events (visible/hidden, with/without expected response, completion patterns none/text/prompt, " +
 			"device finishing early at each position or never) with plain commands before/after (incl. eager); privilege escalations (2/3 levels, secret configured) " +
 			"with outcomes asks/grants/refuses/asks-and-rejects/wrong secret/flaky. Non-trivial = >=2 events sent, or a hidden input sent, or an early completion, or an escalation; " +
-			"plain-only cases count when a command's echo arrived in >=2 reads. Distinct = distinct descriptor hash.",
+			"plain-only cases count when a command's echo arrived in >=2 reads. Also: sessions of 3-5 interactive operations on one channel in which the caller reuses ONE completion-pattern slice " +
+			"across operations with pattern-less operations in between (per-operation oracles + the caller's slice must be unchanged after every call), and cases in which one write " +
+			"(the escalation secret, or an event's input) is stuck in the transport past the operation timeout (nothing may be typed by an operation that has returned; secret only in password state); both always non-trivial. " +
+			"Distinct = distinct descriptor hash.",
 		Assumptions: []string{
 			"device is causal (devsim.CLI): echoes visible input, reads hidden input without echo, reacts to a line only when its return arrived",
 			"every expected-response regexp contains a token that is unique in the session, so it can match nowhere but in its own response text; no '#', '>', '$' outside prompts, so the prompt pattern matches prompts only",
@@ -56,6 +76,7 @@ func init() {
 			"the session has consumed the prompt that precedes the dialogue when the first event waits for the prompt: a warm-up plain command precedes (its echo read swallows stale output). A dedicated share of such dialogues is run in a fresh session instead (descriptor fresh=true, dialogue only); their pacing/whole-dialogue violations carry the key suffix :fresh-session (known finding: the stale initial prompt is taken for the device's answer)",
 			"visible echo-matched inputs end in a byte that occurs nowhere else; bytes withheld by the device lie behind the match point; search depth exceeds every line",
 			"in reaction to one event the device shows either the expected response or a completion pattern, never both",
+			"stuck-write cases: the transport holds exactly one write; it is let go after the caller started its next operation if the call returned meanwhile, else a grace period after the operation timeout (lateness of the return is not judged here); what precedes the held write runs under a 1.5-2 s timeout, failures there are inconclusive",
 			"escalation device: password read is hidden (no echo), rejects/refusals return to the exec prompt with an error line",
 		},
 		Gen:         gen,
